@@ -225,6 +225,9 @@ pub struct Projections {
     pub stream_items: Vec<(usize, Vec<MsgView>)>,
     pub stream_ended: Vec<(usize, bool)>,
     pub run_result: Option<RunRes>,
+    /// client packets no request accounts for (duplicates, strays) / not well-formed
+    pub unattributed: usize,
+    pub malformed: usize,
 }
 
 #[derive(Clone, Debug, Default)]
@@ -260,6 +263,7 @@ pub struct Stats {
     pub events_applied: usize,
     pub events_skipped: usize,
     pub inexact_starts: usize,
+    pub refused_for_size: usize,
     pub oversized_disconnect: bool,
 }
 
@@ -300,6 +304,8 @@ struct Sim<'a> {
     wire_len_at_disconnect: Option<usize>,
     last_ack_order: Vec<usize>,
     streams_dropped_any: bool,
+    /// every handle slot is empty but pending operation futures still hold clones
+    handles_dropped_pending: bool,
 }
 
 #[derive(Clone, Debug)]
@@ -453,6 +459,14 @@ impl<'a> Sim<'a> {
     fn check_quiescent(&mut self) {
         if self.ctx_dropped {
             return;
+        }
+        if self.handles_dropped_pending && self.terminated.is_none() && !self.w.ops.iter().any(|o| o.pending()) {
+            // the last clone is gone now
+            self.handles_dropped_pending = false;
+            self.terminated = Some((Cause::DropAllHandles, self.w.step));
+            self.expected_run = Some(RunExpect::HandleClosed);
+            // the context notices on its next poll (the channel wakes it)
+            settle(&mut self.w, &self.cfg.write, self.cfg.drain_streams);
         }
         // C03: everything the transport offered has been consumed while run() is alive
         if self.w.ctx_running() && self.w.reader.unread() > 0 && !self.w.writer.blocked() {
@@ -919,6 +933,32 @@ impl<'a> Sim<'a> {
         self.on_completions();
     }
 
+    /// encoded length of operation i's request
+    fn encoded_len(&self, i: usize) -> usize {
+        let p = match &self.w.ops[i].spec {
+            OpSpec::Publish(p) => p.expected().map(|mut x| {
+                if x.qos > 0 {
+                    x.pid = Some(1);
+                }
+                rc::Packet::Publish(x)
+            }),
+            OpSpec::Subscribe(sp) => sp.expected().map(|mut x| {
+                x.pid = 1;
+                // subscription identifiers are handed out 1, 2, 3.. per subscribe() call
+                let nth = (0..=i).filter(|k| matches!(self.w.ops[*k].spec, OpSpec::Subscribe(_))).count();
+                x.sub_id = Some(nth as u32);
+                rc::Packet::Subscribe(x)
+            }),
+            OpSpec::Unsubscribe(u) => u.expected().map(|mut x| {
+                x.pid = 1;
+                rc::Packet::Unsubscribe(x)
+            }),
+            OpSpec::Ping => Some(rc::Packet::Pingreq),
+            OpSpec::Disconnect(d) => Some(rc::Packet::Disconnect(d.expected())),
+        };
+        p.map(|p| rc::encode(&p, &rc::Form::canonical()).len()).unwrap_or(0)
+    }
+
     /// nothing the context has not yet seen: no unread input, no unprocessed
     /// acknowledgement, no request still queued
     fn all_processed(&self) -> bool {
@@ -946,14 +986,26 @@ impl<'a> Sim<'a> {
         self.w.start_op(live[k], spec);
         self.stats.kinds.insert(kind_name(kind));
         let out_before = self.outstanding();
-        let refused = matches!(kind, OpKind::Pub1 | OpKind::Pub2) && out_before >= self.r;
+        // the server's Maximum Packet Size is checked before the quota; the encoded length is
+        // known up to the width of the subscription identifier (2 bytes of slack)
+        let mut too_big = false;
+        #[allow(unused_assignments)]
+        let mut size_unclear = false;
+        if let Some(m) = self.max_packet_size {
+            let l = self.encoded_len(i) as u64;
+            // exact: the packet identifier is always two bytes, the subscription identifier
+            // is the number of subscribe() calls made so far (see encoded_len)
+            too_big = l > m as u64;
+            size_unclear = false;
+        }
+        let refused = !too_big && matches!(kind, OpKind::Pub1 | OpKind::Pub2) && out_before >= self.r;
         self.mops.push(MOp {
             kind,
             acks: vec![],
             expected: None,
             final_step: None,
             dropped_step: None,
-            expect_refused: if refused { Some("QuotaExceeded") } else { None },
+            expect_refused: if too_big { Some("MaximumPacketSizeExceeded") } else if refused { Some("QuotaExceeded") } else { None },
             counted_in_quota: false,
             quota_freed: false,
             completion_checked: false,
@@ -965,7 +1017,14 @@ impl<'a> Sim<'a> {
         if refused {
             self.stats.quota_exhausted += 1;
         }
-        let exact = self.cfg.auto_settle || (settle_now && clean_before);
+        if too_big {
+            self.stats.refused_for_size += 1;
+            let step = self.w.step;
+            let m = self.mops.last_mut().unwrap();
+            m.expected = Some(OpRes::Err(ErrSum::MaximumPacketSizeExceeded));
+            m.final_step = Some(step);
+        }
+        let exact = (self.cfg.auto_settle || (settle_now && clean_before)) && !size_unclear;
         if settle_now && !clean_before && !self.cfg.auto_settle {
             self.stats.inexact_starts += 1;
         }
@@ -979,7 +1038,14 @@ impl<'a> Sim<'a> {
             }
             let res = self.w.ops[i].res.clone();
             let on_wire = self.tr.on_wire(i);
-            if refused {
+            if too_big {
+                if res != Some(OpRes::Err(ErrSum::MaximumPacketSizeExceeded)) || on_wire {
+                    self.fail(
+                        format!("C12/oversized-not-refused/{}", kind_name(kind)),
+                        format!("{} {i} is {} bytes, Maximum Packet Size {:?}: result {res:?}, on wire: {on_wire}", kind_name(kind), self.encoded_len(i), self.max_packet_size),
+                    );
+                }
+            } else if refused {
                 if res != Some(OpRes::Err(ErrSum::QuotaExceeded)) {
                     self.fail(
                         "C10/not-refused-at-receive-maximum",
@@ -1285,14 +1351,15 @@ impl<'a> Sim<'a> {
                 for h in self.w.live_handles() {
                     self.w.drop_handle(h);
                 }
-                // handles held by pending operations keep the channel open
+                // handles held by pending operations keep the channel open: the cause has
+                // not happened yet; it happens when the last of them completes or is dropped
                 let held = self.w.ops.iter().any(|o| o.pending());
-                self.expected_run = if held { None } else { Some(RunExpect::HandleClosed) };
                 if held {
+                    self.expected_run = None;
                     self.terminated = None;
-                    // the cause has not happened yet; it happens when the last pending
-                    // operation completes or is dropped — not modelled further
-                    self.terminated = Some((Cause::DropAllHandles, self.w.step));
+                    self.handles_dropped_pending = true;
+                } else {
+                    self.expected_run = Some(RunExpect::HandleClosed);
                 }
             }
             Cause::Garbage(bytes) => {
@@ -1338,7 +1405,7 @@ impl<'a> Sim<'a> {
         let live = self.w.live_handles();
         let mut late = vec![];
         if let Some(&h) = live.first() {
-            for kind in [OpKind::Pub0, OpKind::Pub1, OpKind::Sub(0), OpKind::Ping] {
+            for kind in [OpKind::Pub0, OpKind::Pub1, OpKind::Pub2, OpKind::Sub(0), OpKind::Unsub(1), OpKind::Ping, OpKind::Disconnect] {
                 let i = self.w.ops.len();
                 let spec = self.op_spec(i, kind);
                 self.w.start_op(h, spec);
@@ -1391,7 +1458,10 @@ impl<'a> Sim<'a> {
                     // completed before the drop by its own ack, or ContextExited
                     let processed = m.final_step.is_some()
                         && m.acks.last().map(|a| a.ctx_polled_after).unwrap_or(false);
-                    let ok = if Some(res) == m.expected.as_ref() {
+                    let ok = if m.kind == OpKind::Disconnect && *res == OpRes::Ok && !self.tr.on_wire(i) {
+                        // "disconnected" although the DISCONNECT never reached the transport
+                        false
+                    } else if Some(res) == m.expected.as_ref() {
                         true
                     } else {
                         match res {
@@ -1674,6 +1744,8 @@ impl<'a> Sim<'a> {
             p.stream_ended.push((s.op, s.ended));
         }
         p.run_result = self.w.run_result.clone();
+        p.unattributed = self.tr.unattributed.len();
+        p.malformed = self.tr.malformed.len();
         p
     }
 }
@@ -1710,6 +1782,12 @@ pub fn cause_name(c: &Cause) -> &'static str {
 }
 
 pub fn run(scn: &Scenario, cfg: &SimCfg) -> SimOut {
+    run_with_block(scn, cfg, usize::MAX)
+}
+
+/// `run`, with the write half accepting nothing more from event index `block_at` on
+/// (back-pressure that is never released).
+pub fn run_with_block(scn: &Scenario, cfg: &SimCfg, block_at: usize) -> SimOut {
     let mut w = World::new();
     let connack = rc::Connack {
         receive_maximum: scn.receive_max,
@@ -1759,8 +1837,12 @@ pub fn run(scn: &Scenario, cfg: &SimCfg) -> SimOut {
         wire_len_at_disconnect: None,
         last_ack_order: vec![],
         streams_dropped_any: false,
+        handles_dropped_pending: false,
     };
-    for ev in &scn.events {
+    for (k, ev) in scn.events.iter().enumerate() {
+        if k == block_at {
+            sim.w.writer.0.borrow_mut().credit = Some(0);
+        }
         sim.apply(ev);
         if sim.w.budget_exhausted {
             break;
